@@ -840,3 +840,26 @@ pub fn sip004_udp_encode_raw(m: Method, master: &[u8], salt: &[u8], plaintext: &
     out.extend_from_slice(&seal(m.stream_aead(), &sub, &[0u8; 12], &[], plaintext, "ss-udp"));
     out
 }
+
+/// A client->server AES-2022 datagram whose identity header names the user holding `eih_upsk` while the body is sealed
+/// under `body_upsk` (what a registered user can forge against another one). Only for the EIH-capable methods.
+pub fn s22_udp_client_encode_forged(m: Method, ipsk: &[u8], body_upsk: &[u8], eih_upsk: &[u8], p: &S22UdpPacket, _xnonce: &[u8; 24]) -> Vec<u8> {
+    assert!(m.supports_eih());
+    let body = udp_body(p);
+    let mut head = [0u8; 16];
+    head[..8].copy_from_slice(&p.session_id.to_be_bytes());
+    head[8..].copy_from_slice(&p.packet_id.to_be_bytes());
+    let sub = session_subkey(m, body_upsk, &p.session_id.to_be_bytes());
+    let ct = seal(udp_aead(m), &sub, &head[4..16], &[], &body, "s22-udp");
+    let mut enc_head = head;
+    aes_ecb_encrypt_block(ipsk, &mut enc_head);
+    let mut out = enc_head.to_vec();
+    let mut block = blake3_hash16(eih_upsk);
+    for (b, h) in block.iter_mut().zip(head.iter()) {
+        *b ^= h;
+    }
+    aes_ecb_encrypt_block(ipsk, &mut block);
+    out.extend_from_slice(&block);
+    out.extend_from_slice(&ct);
+    out
+}
